@@ -44,6 +44,10 @@ func runC19(r *R) {
 	r.Sample(sp.describe())
 	out := runHTTPFaults(r, sp)
 	res := out.Res
+	if len(out.Runaway) > 0 {
+		r.Fail("redirect-loop-followed-without-bound", "the target answers entries %v with a redirect to the same URI; with redirect=%v the client followed it for more than 64 hops per shot (a shot inside such a loop never ends: no sample, the instance never takes its next ammo)", out.Runaway, sp.FollowRedirects)
+		return
+	}
 	kinds := map[string]bool{}
 	for _, b := range sp.Behaviours {
 		kinds[b.Kind] = true
